@@ -15,3 +15,8 @@ class C12(ModelCheck):
                    "known finding R3 (same mailbox id in two apps) excluded by construction"]
     quick = {'examples': 2400, 'max_ops': 40, 'workers': 8}
     thorough = {'examples': 120000, 'max_ops': 100, 'workers': 16}
+
+    def enumerate(self, tier, seed, stats):
+        from ..timeenum import enumerate_timelines
+        cfg = {"usage": True, "blur": None, "allow_list": True}
+        return enumerate_timelines(self, cfg, 3 if tier == "quick" else 5, 8 if tier == "quick" else 16, stats)
